@@ -48,8 +48,8 @@ class SpartanProtocol(BaseGopherProtocol):
         if content_length:
             try:
                 data = self.rfile.read(content_length)
-            except OverflowError:
-                # A length no read() can take.
+            except (OverflowError, MemoryError):
+                # A length no read() can take, or no buffer can hold.
                 self.write_status(4, "Bad request")
                 return
             self.searchrequest = data.decode(errors="surrogateescape")
